@@ -132,3 +132,9 @@ Print Assumptions box_collapse_same_sides_partial.
 Theorem box_collapse_shortest : forall q l, expand_quad l = Some q -> (length (compact_quad q) <= length l)%nat.
 Proof. exact box_quad_shortest_all. Qed.
 Print Assumptions box_collapse_shortest.
+
+(* the alpha text of the rgba() fallback (table regenerated from source) reads
+   back as the same alpha byte, for all 256 bytes (finite sweep) *)
+Theorem alpha_table_roundtrip : forall a, 0 <= a < 256 -> alpha_ok a = true.
+Proof. exact alpha_table_roundtrip_all. Qed.
+Print Assumptions alpha_table_roundtrip.
